@@ -576,8 +576,9 @@ Definition recover (cfg : defects) (mode : dbmode) (filters : list (bytes * frul
                                                       | Some (_, r) => Some r | None => None end
                                           | None => None end |}) live in
   let mp := map (fun k => (k_name k, k_id k)) kss in
+  let jids := flat_map (fun b => map ri_ks (rb_items b) ++ rb_clears b) (concat sealed ++ active) in
   let next_id := if d_id_reuse cfg then nmax_list (1 :: map fst dirs) + 1
-                 else N.max prev_next_id (nmax_list (1 :: map fst dirs) + 1) in
+                 else nmax_list (1 :: map fst dirs ++ jids) + 1 in
   (* recover_sealed_memtables: not reachable in model programs (needs 64 MB of journal); sealed = [] *)
   let '(sq1, kss1) := fold_left (replay_batch cfg meta mp) (concat sealed) (0, kss) in
   (* active journal *)
